@@ -46,6 +46,9 @@ fn server_binary() -> String {
 impl Server {
     /// starts the real server in `dir` on a free port; `strace` wraps it for C26
     pub(crate) async fn start(dir: &str, seed: u64, strace: bool) -> Result<Server, String> {
+        Self::start_with(dir, seed, strace, 3600).await
+    }
+    pub(crate) async fn start_with(dir: &str, seed: u64, strace: bool, token_expiry_seconds: u64) -> Result<Server, String> {
         std::fs::create_dir_all(dir).map_err(|e| e.to_string())?;
         for attempt in 0..20u64 {
             let port = 20_000 + ((vcore::rng::mix(seed ^ (attempt * 977) ^ std::process::id() as u64)) % 30_000) as u16;
@@ -53,7 +56,7 @@ impl Server {
                 continue;
             }
             let yaml = format!(
-                "bind: 127.0.0.1:{port}\naddress: http://127.0.0.1:{port}\nbasepath: \nadmin: admin\nlog_level: OFF\ndata_dir: data\ncluster: []\ntoken_expiry_seconds: 3600\n"
+                "bind: 127.0.0.1:{port}\naddress: http://127.0.0.1:{port}\nbasepath: \nadmin: admin\nlog_level: OFF\ndata_dir: data\ncluster: []\ntoken_expiry_seconds: {token_expiry_seconds}\n"
             );
             std::fs::write(format!("{dir}/agdb_server.yaml"), yaml).map_err(|e| e.to_string())?;
             let strace_log = if strace { Some(format!("{dir}/strace.log")) } else { None };
@@ -242,7 +245,8 @@ impl CaseEngine for C24 {
          user add; the documented permission table (owner / read / write / admin / server admin) predicts 'permitted'; a request that is not \
          permitted must not succeed (no 2xx) and the state probe through the admin API (database list with backup stamps, users, per-database \
          roles, content fingerprints) must be unchanged; a role change or logout that returned 2xx must be visible in the next probe. \
-         evaluations = requests; distinct = distinct (endpoint, caller relation to target, permitted, outcome class) tuples"
+         evaluations = requests; distinct = distinct (endpoint, caller relation to target, permitted, outcome class) tuples. Thorough tier only: one case runs a server with token_expiry_seconds = 60 \
+         (the minimum), waits 64 s and sends 13 user and admin requests with the expired tokens: none may succeed, the state probe (fresh admin login) must be unchanged"
             .into()
     }
     fn cases(&self, args: &Args) -> usize {
@@ -260,6 +264,73 @@ impl CaseEngine for C24 {
         let dir = vcore::scratch_dir(&scratch, &format!("c{case}"));
         let requests = args.u64("requests", if args.thorough() { 1500 } else { 400 });
         let rt = tokio::runtime::Builder::new_multi_thread().worker_threads(2).enable_all().build().expect("runtime");
+        if args.u64("expiry", if args.thorough() { 1 } else { 0 }) == 1 && case == 0 {
+            // token expiry by time: the shortest expiry the server accepts is 60 s
+            let r: Result<(), String> = rt.block_on(async {
+                let server = Server::start_with(&dir, seed, false, 60).await?;
+                let started = std::time::Instant::now();
+                let old_admin = server.admin().await?;
+                old_admin.admin_user_add("alice", "alice_password1").await.map_err(|e| e.to_string())?;
+                let mut alice = server.api();
+                alice.user_login("alice", "alice_password1").await.map_err(|e| e.to_string())?;
+                alice.db_add("alice", "d1", DbKind::Memory).await.map_err(|e| e.to_string())?;
+                let mutating: Vec<QueryType> = vec![QueryBuilder::insert().nodes().count(1).query().into()];
+                let reading: Vec<QueryType> = vec![QueryBuilder::select().node_count().query().into()];
+                if !ok(alice.db_exec_mut("alice", "d1", &mutating).await.map(|x| x.0)).0 {
+                    return Err("fresh token does not work".into());
+                }
+                let before = probe(&old_admin).await?;
+                while started.elapsed() < Duration::from_secs(64) {
+                    progress("waiting for the tokens to expire");
+                    tokio::time::sleep(Duration::from_secs(2)).await;
+                }
+                let outcomes: Vec<(&str, (bool, u16))> = vec![
+                    ("db_list", ok(alice.db_list().await.map(|x| x.0))),
+                    ("db_add", ok(alice.db_add("alice", "d2", DbKind::Memory).await)),
+                    ("db_exec", ok(alice.db_exec("alice", "d1", &reading).await.map(|x| x.0))),
+                    ("db_exec_mut", ok(alice.db_exec_mut("alice", "d1", &mutating).await.map(|x| x.0))),
+                    ("db_audit", ok(alice.db_audit("alice", "d1").await.map(|x| x.0))),
+                    ("db_backup", ok(alice.db_backup("alice", "d1").await)),
+                    ("db_user_list", ok(alice.db_user_list("alice", "d1").await.map(|x| x.0))),
+                    ("db_delete", ok(alice.db_delete("alice", "d1").await)),
+                    ("user_status", ok(alice.user_status().await.map(|x| x.0))),
+                    ("user_change_password", ok(alice.user_change_password("alice_password1", "alice_password2").await)),
+                    ("admin_db_list", ok(old_admin.admin_db_list().await.map(|x| x.0))),
+                    ("admin_user_add", ok(old_admin.admin_user_add("mallory", "mallory_password1").await)),
+                    ("admin_db_exec_mut", ok(old_admin.admin_db_exec_mut("alice", "d1", &mutating).await.map(|x| x.0))),
+                ];
+                let fresh_admin = server.admin().await?;
+                let after = probe(&fresh_admin).await?;
+                for (name, (success, code)) in &outcomes {
+                    rep.eval();
+                    rep.count("requests_with_an_expired_token");
+                    rep.distinct_hash(tag(&format!("expired|{name}|{success}")));
+                    if *success {
+                        rep.violation(&format!("C24:expired_token_accepted:{name}"), &format!("{name} with a token older than token_expiry_seconds (60 s) returned {code}"),
+                            json!({"engine":"c24","case":case,"seed":args.u64("seed",1),"tier":args.str("tier","quick"),"endpoint":name}));
+                    }
+                }
+                if before != after {
+                    rep.violation("C24:request_with_expired_token_changed_state", &format!("state changed by requests with expired tokens:\n{before}\n--->\n{after}"),
+                        json!({"engine":"c24","case":case,"seed":args.u64("seed",1),"tier":args.str("tier","quick")}));
+                } else {
+                    rep.count("expired_token_requests_rejected_without_effect");
+                }
+                // a new login still works after the old token expired
+                let mut again = server.api();
+                if !ok(again.user_login("alice", "alice_password1").await).0 || !ok(again.db_exec("alice", "d1", &reading).await.map(|x| x.0)).0 {
+                    rep.inconclusive("expiry scenario: a fresh login after expiry does not work");
+                }
+                server.stop().await;
+                Ok(())
+            });
+            drop(rt);
+            if let Err(e) = r {
+                rep.inconclusive(&format!("case {case} (expiry): {e}"));
+            }
+            let _ = std::fs::remove_dir_all(&dir);
+            return;
+        }
         let r: Result<(), String> = rt.block_on(async {
             let server = Server::start(&dir, seed, false).await?;
             let admin = server.admin().await?;
@@ -566,6 +637,9 @@ impl CaseEngine for C24 {
         rep.require("unpermitted_requests_rejected_without_effect", 200);
         rep.require("requests_permitted_by_the_model", 200);
         rep.require("permitted_requests_that_succeeded", 100);
+        if args.u64("expiry", if args.thorough() { 1 } else { 0 }) == 1 {
+            rep.require("requests_with_an_expired_token", 10);
+        }
         for r in ["not_permitted_invalid_token", "not_permitted_logged_out_token", "not_permitted_stranger", "not_permitted_db_read", "not_permitted_db_write"] {
             rep.require(r, 10);
         }
